@@ -38,7 +38,7 @@ def main(argv):
     else:
         runs.append(("depth3", ["depth=3", "cont=2", "thorough=1"]))
         runs.append(("longname", ["depth=2", "cont=1", "long=1"]))
-    total = {"states": 0, "transitions": 0, "tears": 0, "continuations": 0, "ops": 0, "loads": 0}
+    total = {"states": 0, "transitions": 0, "tears": 0, "continuations": 0, "ops": 0, "loads": 0, "crash_points": 0}
     samples = []
     fams = []
     for name, args in runs:
@@ -56,7 +56,7 @@ def main(argv):
                 fam["states"] = val["states"]
                 fam["transitions"] = val["transitions"]
                 first = False
-            for k in ("tears", "continuations", "ops", "loads"):
+            for k in ("tears", "continuations", "ops", "loads", "crash_points"):
                 total[k] += val[k]
                 fam[k] = fam.get(k, 0) + val[k]
             samples += val["samples"][:1]
@@ -90,7 +90,7 @@ def main(argv):
         "traces_validated_against_impl": total["ops"],
         "evaluations": total["ops"], "distinct_nontrivial": total["tears"],
         "rule": RULE, "clean_states": total["states"], "tear_points": total["tears"],
-        "continuation_steps_after_tears": total["continuations"], "loads_compared_with_reference_reader": total["loads"],
+        "continuation_steps_after_tears": total["continuations"], "maintenance_crash_points": total["crash_points"], "loads_compared_with_reference_reader": total["loads"],
         "families": fams,
         "samples": samples[:4] or [["session()", "tear@7", "load"]],
         "explanation": "every operation is executed on the real BuildLog; the reference reader is src/common/logparse.h",
